@@ -2,103 +2,7 @@
 // Shape parameters are concrete per run (-D): RS AS BS limb counts; RM RA / AM AA / BM BA strides sl = nn*M + A;
 // ALIAS 0 none, 1 res==a, 2 res==b, 3 a==b; GQ limb of the padding ghost.  nn, data, G (coefficient), GL (limb)
 // and GPAD (padding offset) stay symbolic.  Element kernels are replaced by their S1 contracts.
-#include "arithmetic/vec_znx_arithmetic_private.h"
-#include "coeffs_contracts.h"
-
-#ifndef RS
-#define RS 2
-#endif
-#ifndef AS
-#define AS 2
-#endif
-#ifndef BS
-#define BS 2
-#endif
-#ifndef RM
-#define RM 1
-#define RA 0
-#endif
-#ifndef AM
-#define AM 1
-#define AA 0
-#endif
-#ifndef BM
-#define BM 1
-#define BA 0
-#endif
-#ifndef ALIAS
-#define ALIAS 0
-#endif
-#ifndef GQ
-#define GQ 0
-#endif
-
-GHOST uint64_t GL;    // ghost limb index (< RS)
-GHOST uint64_t GPAD;  // ghost padding offset inside limb GQ: nn <= GPAD < res_sl
-GHOST uint64_t GX;    // ghost limb index in [RS, extent) of an aliased, longer input
-
-#define NN (module->nn)
-// bytes of a vector of `size` limbs of stride `sl`: exactly up to the last coefficient of the last limb.
-// REXT = extent (in limbs) of the res object: when an input is the very same buffer it must hold the longer of the
-// two; it is computed by the job generator (max(RS,AS) for ALIAS 1, max(RS,BS) for ALIAS 2, else RS).
-#ifndef REXT
-#define REXT RS
-#endif
-#if REXT > 0
-#define RES_BYTES (((REXT - 1) * res_sl + NN) * 8)
-#else
-#define RES_BYTES 0
-#endif
-#if AS > 0
-#define A_BYTES (((AS - 1) * a_sl + NN) * 8)
-#else
-#define A_BYTES 0
-#endif
-#if BS > 0
-#define B_BYTES (((BS - 1) * b_sl + NN) * 8)
-#else
-#define B_BYTES 0
-#endif
-
-#define REQ_MODULE __CPROVER_is_fresh(module, sizeof(MODULE)) && 1 <= NN && NN <= MAXN
-#define REQ_SHAPE3 res_size == RS && a_size == AS && b_size == BS && res_sl == NN * RM + RA && a_sl == NN * AM + AA && b_sl == NN * BM + BA
-#define REQ_SHAPE2 res_size == RS && a_size == AS && res_sl == NN * RM + RA && a_sl == NN * AM + AA
-#define REQ_GHOST G < NN && (RS == 0 || GL < RS) && (!HAS_PAD || (NN <= GPAD && GPAD < res_sl)) && (REXT <= RS || (RS <= GX && GX < REXT))
-
-#if ALIAS == 1
-#define REQ_A (a == res && a_sl == res_sl)
-#else
-#define REQ_A __CPROVER_is_fresh(a, A_BYTES)
-#endif
-#if ALIAS == 2
-#define REQ_B (b == res && b_sl == res_sl)
-#elif ALIAS == 3
-#define REQ_B (b == a && b_sl == a_sl && BS == AS)
-#else
-#define REQ_B __CPROVER_is_fresh(b, B_BYTES)
-#endif
-
-// value of input limb GL at coefficient G, an absent limb reads as zero (index clamped so that old() stays in bounds)
-#if AS > 0
-#define A_AT (GL < AS ? __CPROVER_old(a[(GL < AS ? GL : 0) * a_sl + G]) : 0)
-#else
-#define A_AT 0
-#endif
-#if BS > 0
-#define B_AT (GL < BS ? __CPROVER_old(b[(GL < BS ? GL : 0) * b_sl + G]) : 0)
-#else
-#define B_AT 0
-#endif
-
-// padding of limb GQ (exists when GQ+1 < REXT and the stride exceeds nn) is bit-for-bit unchanged
-#if (RM > 1 || RA > 0)
-#define HAS_PAD (GQ + 1 < REXT)
-#else
-#define HAS_PAD 0
-#endif
-#define ENS_PAD (!HAS_PAD || res[GQ * res_sl + GPAD] == __CPROVER_old(res[(HAS_PAD ? GQ * res_sl + GPAD : 0)]))
-// limbs of an aliased longer input beyond res_size are not written
-#define ENS_TAIL (REXT <= RS || res[GX * res_sl + G] == __CPROVER_old(res[(REXT <= RS ? 0 : GX * res_sl + G)]))
+#include "vec_shape.h"
 
 #define VEC3_CONTRACT(cname, OP)                                                                                   \
   void cname(const MODULE* module, int64_t* res, uint64_t res_size, uint64_t res_sl, const int64_t* a,             \
